@@ -40,6 +40,8 @@ class Stepper:
         self.before = copy.deepcopy(self.dom)
         part = A.partition_class(cfg["kind"], cfg["K"])
         self.P = {"kind": cfg["kind"], "K": cfg["K"], "D": D, "metric": "rank", "arity": A.arity(cfg["kind"], cfg["K"], D), "algo": cfg["algo"]}
+        if cfg.get("sessiononly"):
+            self.P["sessiononly"] = 1
         self.n = cfg["n"]
         self.T = cfg.get("T", self.n)
         self.t0 = cfg.get("t0", 1)
